@@ -245,6 +245,10 @@ PROP_GEN = {
             "main_deps": ["LoopRangeProofs.vo", "GenBase.vo"], "main_cone": ["LoopRangeProofs.v", "GenBase.v"]},
     "C08": {"modules": ["LiteralGen"], "files": ["GenLinkLiteral.v", "GenPropsLiteral.v", "C08g.v"],
             "main_deps": ["LiteralProofs.vo", "GenBase.vo"], "main_cone": ["LiteralProofs.v", "GenBase.v"]},
+    "C09": {"modules": ["StrConvGen"], "files": ["GenLinkStrConv.v", "GenPropsStrConv.v", "C09g.v"],
+            "main_deps": ["StrConvProofs.vo", "Literal.vo", "GenBase.vo"], "main_cone": ["StrConvProofs.v", "Literal.v", "GenBase.v"]},
+    "C17": {"modules": ["StrConvGen"], "files": ["GenLinkStrConv.v", "GenPropsStrConv.v", "C17g.v"],
+            "main_deps": ["StrConvProofs.vo", "Literal.vo", "GenBase.vo"], "main_cone": ["StrConvProofs.v", "Literal.v", "GenBase.v"]},
     "C11": {"modules": ["PartitionGen"], "files": ["GenLinkPartition.v", "GenPropsPartition.v", "C11g.v"],
             "main_deps": ["PartitionProofs.vo", "MergeProofs.vo", "GenBase.vo"], "main_cone": ["PartitionProofs.v", "MergeProofs.v", "GenBase.v"]},
     "C12": {"modules": ["PartitionGen"], "files": ["GenLinkPartition.v", "GenPropsPartition.v", "C12g.v"],
